@@ -203,7 +203,7 @@ def validate_traces(trace_files, module="ObsTrace.tla", cfg="ObsTrace.cfg", time
         for v in d["violations"]:
             v["trace"] = tf
             res["violations"].append(v)
-        for k, c in d.get("coverage", {}).items():
+        for k, c in (d.get("coverage") or {}).items() if isinstance(d.get("coverage"), dict) else []:
             res["coverage"][k] = res["coverage"].get(k, 0) + c
         st, _ = tlc_stats(o)
         res["states"] += st
